@@ -164,6 +164,7 @@ def run_op(op):
 
 
 def run_impl(case):
+    U_.clear_units_cache()  # a history starts from the empty memo (as the model does)
     answers = [run_op(op) for op in case["ops"]]
     cache = sorted([_key(a), _key(b), bool(c), bool(e)] for (a, b), (c, e) in U_._UNIT_PAIRS_CACHE.items())
     return {"answers": answers, "cache": cache}
@@ -421,7 +422,7 @@ def run(ctx, res):
                        "(1 - 1.001e-5, 1 + 1.001e-5) other than exactly 1 (Lean theorem catalogue_tolerance_exact); "
                        "delta_ units and irrational factors (degree) are outside the catalogue",
                        "floating point rounding of pint is not modelled: values compared with relative tolerance 1e-9"]
-    res.exhaustive = True  # every ordered pair of the catalogue is queried
+    res.extra["ordered_pairs_all_queried"] = True  # every ordered pair of the catalogue is queried; orders are sampled
     check_table(res)
     cases = corpus() + gen_histories(ctx.rng, ctx.n(24, 96), rounds=ctx.n(2, 12))
     check_cases(cases, res)
